@@ -10,6 +10,12 @@ import B3.Model.Rs
 import B3.Model.GenK
 import B3.B3sum.Drv
 import B3.Model.C
+import B3.Model.Traits
+import B3.Model.Ref
+import B3.Gen.RefCompress
+import B3.Io.Model
+import B3.Io.Drv
+import B3.Hex.Drv
 open B3
 
 def hexDigit (n : Nat) : Char := if n < 10 then Char.ofNat (48 + n) else Char.ofNat (87 + n)
@@ -79,6 +85,9 @@ structure CReg where
 
 structure DState where
   sd : Nat := 1
+  plat : String := "Portable"
+  gregs : List (String × Rs.ChunkState) := []
+  rregs : List (String × Ref.Hasher × Spec.Mode × List UInt8) := []
   csd : Nat := 16          -- blake3_simd_degree() under the current g_cpu_features
   cregs : List (String × CReg) := []
   hs : List (String × HReg) := []
@@ -120,6 +129,42 @@ def modeFlags (m : Spec.Mode) : UInt8 := m.flags
 def rsModeKey (sd : Nat) (m : Spec.Mode) : CV := Rs.modeKeyWords genK sd m
 def rsModeFlags (m : Spec.Mode) : UInt8 := Rs.modeFlags m
 
+def platDebugName : String → String
+  | "portable" => "Portable"
+  | "sse2" => "SSE2"
+  | "sse41" => "SSE41"
+  | "avx2" => "AVX2"
+  | "avx512" => "AVX512"
+  | _ => "?"
+
+/-- the published vectors' input pattern -/
+def vecInput (n : Nat) : List UInt8 := ((List.range n).toArray.map fun i => UInt8.ofNat (i % 251)).toList
+
+/-- reader-script events (`d<len>:<seed>`, `s<len>:<seed>:<k>`, `i`, `z`, `e`, `e:<Kind>`) with real pattern bytes -/
+def shortPieces (bs : List UInt8) (k : Nat) : List Io.ReadEvent :=
+  if h : bs.length ≤ k ∨ k = 0 then [.data bs] else .data (bs.take k) :: shortPieces (bs.drop k) k
+termination_by bs.length
+decreasing_by simp [List.length_drop]; omega
+
+def parseEvent (s : String) : Option (List Io.ReadEvent) :=
+  let kind := (s.take 1).toString
+  let rest := (s.drop 1).toString
+  if kind == "d" then
+    match rest.splitOn ":" with
+    | [n, seed] => do let n ← n.toNat?; let seed ← seed.toNat?; pure [.data (patBytes n (UInt64.ofNat seed))]
+    | _ => none
+  else if kind == "s" then
+    match rest.splitOn ":" with
+    | [n, seed, k] => do
+      let n ← n.toNat?; let seed ← seed.toNat?; let k ← k.toNat?
+      if k = 0 then none else pure (shortPieces (patBytes n (UInt64.ofNat seed)) k)
+    | _ => none
+  else if s == "i" then some [.interrupted]
+  else if s == "z" then some [.eof]
+  else if s == "e" then some [.fail "Other"]
+  else if kind == "e" && rest.startsWith ":" then some [.fail (rest.drop 1).toString]
+  else none
+
 def sdOfPlatform : String → Option Nat
   | "portable" => some 1
   | "sse2" => some 4
@@ -128,11 +173,11 @@ def sdOfPlatform : String → Option Nat
   | "avx512" => some 16
   | _ => none
 
-def step (s : DState) (line : String) : DState × String :=
+def stepToks (s : DState) (toks : List String) : DState × String :=
   let bad := (s, "bad-op")
-  match line.trimAscii.toString.splitOn " " with
+  match toks with
   | ["P", "plat", p] => match sdOfPlatform p with
-    | some sd => ({ s with sd := sd }, "ok;-")
+    | some sd => ({ s with sd := sd, plat := platDebugName p }, "ok;-")
     | none => bad
   | "H" :: "new" :: r :: rest => match parseMode rest with
     | some (mode, []) =>
@@ -311,6 +356,164 @@ def step (s : DState) (line : String) : DState × String :=
       let sp := Spec.compress (cvOfBytes cvb) (wordsOfBytes 16 bb) (UInt64.ofNat t) (UInt32.ofNat bl) (UInt32.ofNat fl)
       (s, hexOfBytes (bytesOfWords m) ++ ";" ++ hexOfBytes (bytesOfWords sp))
     | _, _, _, _, _ => bad
+  -- ---- adapters: scripted reader (C11), multithreaded entry points (C08)
+  | "H" :: op :: r :: evs => match (if op = "updrd" ∨ op = "updrdx" then s.getH r else none), evs.mapM parseEvent with
+    | some reg, some groups =>
+      let events := groups.flatten
+      -- the hasher threaded through copy_wide: `none` would be a panic of update (impossible without an offset)
+      let (ho, res, _) := Io.copyWide (fun (o : Option Rs.Hasher) x => o.bind (fun h => h.update genK s.sd x)) events (some reg.h)
+      match ho with
+      | some h' =>
+        let resS := match res with
+          | .ok _ => "ok"
+          | .error k => "err:" ++ k
+        -- `updrdx` also reports read calls, events consumed and undelivered bytes (Io.Drv.predict, sizes only)
+        let out := if op = "updrdx" then " ".intercalate ((Io.Drv.predict evs).splitOn " " |>.take 4) else resS
+        (s.setH r { reg with h := h', absorbed := reg.absorbed ++ Io.dataBefore events }, out ++ ";-")
+      | none => (s, "PANIC;-")
+    | _, _ =>
+      -- not a reader op: fall through to the remaining `H` ops
+      match op :: r :: evs with
+      | "updray" :: r :: _threads :: rest => match s.getH r, parseData rest with
+        | some reg, some (data, []) => match reg.h.update genK s.sd data with
+          | some h' => (s.setH r { reg with h := h', absorbed := reg.absorbed ++ data }, "ok;-")
+          | none => (s, "PANIC;-")
+        | _, _ => bad
+      | "updsj" :: r :: _script :: rest => match s.getH r, parseData rest with
+        | some reg, some (data, []) => match reg.h.update genK s.sd data with
+          | some h' => (s.setH r { reg with h := h', absorbed := reg.absorbed ++ data }, "ok;-")
+          | none => (s, "PANIC;-")
+        | _, _ => bad
+      | _ => bad
+  -- ---- reference implementation (model run with the compression function generated from reference_impl.rs)
+  | "R" :: "new" :: r :: rest => match parseMode rest with
+    | some (mode, []) => match Ref.newMode Gen.Ref.compress mode with
+      | some h => ({ s with rregs := (r, h, mode, []) :: s.rregs.filter (·.1 ≠ r) }, "ok;-")
+      | none => (s, "PANIC;-")
+    | _ => bad
+  | "R" :: "upd" :: r :: rest => match s.rregs.find? (·.1 = r), parseData rest with
+    | some (_, h, mode, ab), some (data, []) => match h.update Gen.Ref.compress data with
+      | some h' => ({ s with rregs := (r, h', mode, ab ++ data) :: s.rregs.filter (·.1 ≠ r) }, "ok;-")
+      | none => (s, "PANIC;-")
+    | _, _ => bad
+  | ["R", "fin", r, n] => match s.rregs.find? (·.1 = r), n.toNat? with
+    | some (_, h, mode, ab), some n => match h.finalize Gen.Ref.compress n with
+      | some out => (s, hexOfBytes out ++ ";" ++ hexOfBytes (streamFast (Spec.root mode ab) 0 n))
+      | none => (s, "PANIC;-")
+    | _, _ => bad
+  -- ---- published vectors: the specification's output for the vector input pattern
+  | "V" :: "spec" :: n :: outlen :: rest => match parseMode rest, n.toNat?, outlen.toNat? with
+    | some (mode, []), some n, some ol => (s, hexOfBytes (streamFast (Spec.root mode (vecInput n)) 0 ol) ++ ";-")
+    | _, _, _ => bad
+  -- ---- guts
+  | ["G", "new", g, counter] => match counter.toNat? with
+    | some t => ({ s with gregs := (g, Traits.gutsNew t) :: s.gregs.filter (·.1 ≠ g) }, "ok;-")
+    | none => bad
+  | "G" :: "upd" :: g :: rest => match s.gregs.find? (·.1 = g), parseData rest with
+    | some (_, cs), some (data, []) =>
+      -- debug builds assert count <= CHUNK_LEN at the end of ChunkState::update
+      let cs' := Traits.gutsUpdate genK cs data
+      if cs'.count ≤ 1024 then ({ s with gregs := (g, cs') :: s.gregs.filter (·.1 ≠ g) }, "ok;-") else (s, "PANIC;-")
+    | _, _ => bad
+  | ["G", "len", g] => match s.gregs.find? (·.1 = g) with
+    | some (_, cs) => (s, toString (Traits.gutsLen cs) ++ ";-")
+    | none => bad
+  | ["G", "fin", g, root] => match s.gregs.find? (·.1 = g) with
+    | some (_, cs) => match Traits.gutsFinalize genK cs (root = "root") with
+      | some out => (s, hexOfBytes out ++ ";-")
+      | none => (s, "PANIC;-")
+    | none => bad
+  | ["G", "parent", l, r, root] => match bytesOfHex l, bytesOfHex r with
+    | some lb, some rb =>
+      if lb.length ≠ 32 ∨ rb.length ≠ 32 then bad else
+      (s, hexOfBytes (Traits.gutsParentCv genK (cvOfBytes lb) (cvOfBytes rb) (root = "root")) ++ ";-")
+    | _, _ => bad
+  -- ---- RustCrypto traits (registers are shared with the inherent API)
+  | ["T", "newkey", r, k] => match bytesOfHex k with
+    | some kb => if kb.length ≠ 32 then bad else
+      (s.setH r { h := Traits.keyInitNew kb, mode := .keyed kb, absorbed := [] }, "ok;-")
+    | none => bad
+  | ["T", "newkeyslice", r, k] => match bytesOfHex k with
+    | some kb => match Traits.keyInitNewFromSlice kb with
+      | some h => (s.setH r { h := h, mode := .keyed kb, absorbed := [] }, "ok;-")
+      | none => (s, "err;-")
+    | none => bad
+  | "T" :: "upd" :: r :: rest => match s.getH r, parseData rest with
+    | some reg, some (data, []) => match Traits.update genK s.sd reg.h data with
+      | some h' => (s.setH r { reg with h := h', absorbed := reg.absorbed ++ data }, "ok;-")
+      | none => (s, "PANIC;-")
+    | _, _ => bad
+  | ["T", "reset", r] => match s.getH r with
+    | some reg => (s.setH r { reg with h := Traits.reset reg.h, absorbed := [] }, "ok;-")
+    | none => bad
+  | ["T", op, r] => match s.getH r with
+    | some reg =>
+      let sp := if reg.h.t0 = 0 then hexOfBytes (Spec.hash reg.mode reg.absorbed) else "-"
+      if op = "fin" ∨ op = "digestfin" ∨ op = "mac" then
+        match Traits.finalizeInto genK reg.h with
+        | some out => (s, hexOfBytes out ++ ";" ++ sp)
+        | none => (s, "PANIC;-")
+      else if op = "finr" then
+        match Traits.finalizeIntoReset genK reg.h with
+        | some (out, h') => (s.setH r { reg with h := h', absorbed := [] }, hexOfBytes out ++ ";" ++ sp)
+        | none => (s, "PANIC;-")
+      else bad
+    | none => bad
+  | ["T", "macverify", r, tag] => match s.getH r, bytesOfHex tag with
+    | some reg, some tb => match Traits.macVerifySlice genK reg.h tb with
+      | some b => (s, (if b then "ok" else "err") ++ ";-")
+      | none => (s, "PANIC;-")
+    | _, _ => bad
+  | ["T", "xof", r, x] => match s.getH r with
+    | some reg => match Traits.finalizeXof genK reg.h with
+      | some rd => (s.setX x { r := rd, specNode := Spec.root reg.mode reg.absorbed }, "ok;-")
+      | none => (s, "PANIC;-")
+    | none => bad
+  | ["T", "xofr", r, x] => match s.getH r with
+    | some reg => match Traits.finalizeXofReset genK reg.h with
+      | some (rd, h') =>
+        ((s.setX x { r := rd, specNode := Spec.root reg.mode reg.absorbed }).setH r { reg with h := h', absorbed := [] }, "ok;-")
+      | none => (s, "PANIC;-")
+    | none => bad
+  | ["T", "read", x, n] => match s.getX x, n.toNat? with
+    | some reg, some n =>
+      let pos := reg.r.position
+      let (out, r') := Traits.xofRead genK reg.r n
+      (s.setX x { reg with r := r' }, hexOfBytes out ++ ";" ++ hexOfBytes (streamFast reg.specNode pos n))
+    | _, _ => bad
+  -- ---- Debug output: only lengths, counters, flags, platform, position
+  | ["D", "dbg", r] => match s.getH r with
+    | some reg => (s, s!"Hasher_\{_flags:_{reg.h.cs.flags.toNat},_platform:_{s.plat}_}" ++ ";-")
+    | none => bad
+  | ["D", "dbgx", x] => match s.getX x with
+    | some reg => (s, s!"OutputReader_\{_position:_{reg.r.position}_}" ++ ";-")
+    | none => bad
+  | ["D", "dbgg", g] => match s.gregs.find? (·.1 = g) with
+    | some (_, cs) =>
+      (s, s!"ChunkState(ChunkState_\{_count:_{cs.count},_chunk_counter:_{cs.t},_flags:_{cs.flags.toNat},_platform:_{s.plat}_})" ++ ";-")
+    | none => bad
+  -- ---- kernels: many inputs / many output blocks (contract over the single-block kernel)
+  | ["K", "hmany", _plat, n, blocks, seed, key, ctr, incr, fl, fs, fe, _inoff, _outoff] =>
+    match n.toNat?, blocks.toNat?, seed.toNat?, bytesOfHex key, ctr.toNat?, fl.toNat?, fs.toNat?, fe.toNat? with
+    | some n, some blocks, some seed, some kb, some ctr, some fl, some fs, some fe =>
+      let outs := (List.range n).flatMap fun i =>
+        let inp := patBytes (blocks * 64) (UInt64.ofNat (seed + i))
+        let t := if incr = "1" then ctr + i else ctr
+        bytesOfWords (Rs.hash1 genK (cvOfBytes kb) t (UInt8.ofNat fl) (UInt8.ofNat fs) (UInt8.ofNat fe) inp)
+      (s, hexOfBytes outs ++ ";-")
+    | _, _, _, _, _, _, _, _ => bad
+  | ["K", "xofmany", _plat, cv, block, bl, ctr, fl, n] =>
+    match bytesOfHex cv, bytesOfHex block, bl.toNat?, ctr.toNat?, fl.toNat?, n.toNat? with
+    | some cvb, some bb, some bl, some ctr, some fl, some n =>
+      let outs := (List.range n).flatMap fun i =>
+        bytesOfWords (genK.cxof (cvOfBytes cvb) (wordsOfBytes 16 bb) (UInt8.ofNat bl) (UInt64.ofNat (ctr + i)) (UInt8.ofNat fl))
+      (s, hexOfBytes outs ++ ";-")
+    | _, _, _, _, _, _ => bad
+  | "D" :: "zeroscan" :: _ => (s, "-;-")        -- memory scan of the real objects: no memory model, oracle in the generator
+  | ["C", "featmask"] => (s, "-;-")
+  | "E" :: rest => match Hex.stepLine ("E" :: rest) with
+    | some o => (s, o ++ ";-")
+    | none => bad
   -- ---- C library
   | ["C", "feat", p] => match sdOfPlatform p with
     | some sd => ({ s with csd := sd }, "ok;-")
@@ -361,6 +564,11 @@ def step (s : DState) (line : String) : DState × String :=
     | some o => (s, o ++ ";-")
     | none => bad
   | _ => bad
+
+def step (s : DState) (line : String) : DState × String :=
+  match line.trimAscii.toString.splitOn " " with
+  | "CK" :: rest => stepToks s ("K" :: rest)      -- C kernels: same contract as the Rust platform kernels
+  | toks => stepToks s toks
 
 partial def loop (h : IO.FS.Stream) (out : IO.FS.Stream) (s : DState) : IO Unit := do
   let line ← h.getLine
